@@ -1,7 +1,7 @@
 package refexp
 
 var Ops = []string{"", ":-", "-", ":=", "=", ":?", "?", ":+", "+", "len", "%", "%%", "#", "##"}
-var Values = []string{"abc", "a b", "a,b:c", "x*y", "日本語", "foo/bar/baz", " lead", "trail,", `a\b\c`}
+var Values = []string{"abc", "a b", "a,b:c", "x*y", "日本語", "foo/bar/baz", " lead", "trail,", `a\b\c`, "bz", "]z", "-z", "!z"}
 var IFSs = []struct {
 	V   string
 	Set bool
@@ -17,6 +17,10 @@ func Words(op string, value string) [][]WP {
 			{{Kind: "lit", Text: "/*"}}, {{Kind: "lit", Text: "*/"}}, {{Kind: "lit", Text: "[a-c]"}}, {{Kind: "lit", Text: "[!a]*"}},
 			{{Kind: "var"}}, {{Kind: "lit", Text: "*"}, {Kind: "sq", Text: "*"}},
 			{{Kind: "assign"}}, {{Kind: "arith"}}, {{Kind: "lit", Text: "*"}, {Kind: "assign"}},
+			// quoted characters inside an unquoted bracket expression are ordinary members
+			{{Kind: "lit", Text: "[a"}, {Kind: "dq", Text: "-"}, {Kind: "lit", Text: "c]"}}, {{Kind: "lit", Text: "["}, {Kind: "sq", Text: "!"}, {Kind: "lit", Text: "a]"}},
+			{{Kind: "lit", Text: "[a"}, {Kind: "sq", Text: "]"}, {Kind: "lit", Text: "b]"}}, {{Kind: "lit", Text: "["}, {Kind: "dq", Text: "^"}, {Kind: "lit", Text: "a]"}},
+			{{Kind: "lit", Text: "[!"}, {Kind: "sq", Text: "!"}, {Kind: "lit", Text: "]"}},
 			// a quoted backslash is an ordinary character of the pattern
 			{{Kind: "sq", Text: `\`}, {Kind: "lit", Text: "*"}}, {{Kind: "lit", Text: "*"}, {Kind: "sq", Text: `\c`}}, {{Kind: "lit", Text: "*"}, {Kind: "dq", Text: `\`}}, {{Kind: "sq", Text: `a\`}},
 		}
